@@ -122,3 +122,16 @@ Proof. intros. eapply read_all_general; eauto. apply cinv_c0. Qed.
 Lemma chain_examples :
   chain_outcomes 3 OnlyK = [OIO; OIO; OIO] /\ chain_outcomes 4 FromK = [OIO; OIO; OIO; OIO].
 Proof. vm_compute. auto. Qed.
+
+(* the shape of the source's error does not matter to the == checker; the
+   errors.Is checker of before fix F59 lost an error that wraps io.EOF: the
+   construction-time error of DecodeStream stayed malformed *)
+Lemma errors_Is_checker_loses_the_error :
+  let wraps_eof := fun c => match c with IO 7 => true | _ => false end in
+  promote_ctor (chk_update None ([], Some (IO 7))) Malformed = IO 7 /\
+  promote_ctor (chk_update_is wraps_eof None ([], Some (IO 7))) Malformed = Malformed /\
+  (forall c, chk_update_is (fun _ => false) None ([], Some c) = chk_update None ([], Some c)).
+Proof.
+  split; [reflexivity|]. split; [reflexivity|].
+  intro c. unfold chk_update_is, chk_update. cbn. rewrite orb_false_r. reflexivity.
+Qed.
